@@ -1840,6 +1840,20 @@ class Engine:
 
     def store_slice(self, base, lo, hi, v, st, k, node):
         """x[lo:hi] = scalar  (broadcast store) on RowVec / column."""
+        if isinstance(base, RowVec) and isinstance(v, RowVec):
+            # r1['data'][a:b] = r2['data'][c:d]: sample-wise copy between two waveform slices; numpy demands equal lengths
+            a, ln = self.norm_slice(lo, hi, base.n)
+            self.oblige("safety", "the slice copied has the length of the slice it is copied into", st, v.n == ln, node)
+            arr = self.heap_field(st.heap, base.base, base.field)
+            src = self.heap_field(st.heap, v.base, v.field)
+            new = self.fresh(f"{base.base}.{base.field}", arr.sort())
+            i, j = z3.Ints("sci scj")
+            inside = z3.And(i == base.idx, base.lo + a <= j, j < base.lo + a + ln)
+            ax = z3.ForAll([i, j], sel2(new, i, j) == z3.If(inside, sel2(src, v.idx, v.lo + (j - base.lo - a)), sel2(arr, i, j)),
+                           patterns=[sel2(new, i, j)])
+            if self.S.finite is not None:
+                raise Unsupported("slice store in finite mode")
+            return k(st.with_cell(base.base, base.field, new).assume(ax))
         if isinstance(base, RowVec):
             a, ln = self.norm_slice(lo, hi, base.n)
             arr = self.heap_field(st.heap, base.base, base.field)
